@@ -64,12 +64,18 @@ Definition is_live (st : state) (id : N) : bool :=
   match live st id with Some _ => true | None => false end.
 
 (* FSM.applyRobustMessage, restricted to what it does to the session map and the markers:
-   - IRCFromClient: UpdateLastClientMessageID FIRST (it fails, and nothing else happens, when
-     the session is not in the map), then ProcessMessage (may delete sessions), then
+   - IRCFromClient: an entry whose non-zero client message id equals the session's marker is the
+     second copy of a retried message and is SKIPPED (commit 92a4e2e: the handler that proposed it
+     was looking at a state that lagged behind the log); otherwise
+     UpdateLastClientMessageID FIRST (it fails, and nothing else happens, when the session is
+     not in the map), then ProcessMessage (may delete sessions), then
      SetLastProcessed(msg.Session.Id) [sic], MaybeDeleteSession;
    - MessageOfDeath: UpdateLastClientMessageID only;
    - DeleteSession: processed as QUIT when the session exists; SetLastProcessed(msg.Id.Id);
    - CreateSession: sessions[id] = new session with marker 0. *)
+Definition is_dup (st : state) (e : entry) : bool :=
+  negb (N.eqb (e_cmid e) 0) && N.eqb (last_post st (e_session e)) (e_cmid e).
+
 Definition apply (o : oracle) (st : state) (e : entry) : state :=
   match e_type e with
   | ECreate => if o_created o then add_session st (e_id e) (e_data e) else st
@@ -77,7 +83,8 @@ Definition apply (o : oracle) (st : state) (e : entry) : state :=
       if is_live st (e_session e)
       then set_lastproc (kill (o_deaths o) st) (e_id e) else st
   | EIrc =>
-      if is_live st (e_session e)
+      if is_dup st e then st
+      else if is_live st (e_session e)
       then set_lastproc (kill (o_deaths o) (set_last st (e_session e) (e_cmid e))) (e_session e)
       else st
   | EMod =>
@@ -85,10 +92,27 @@ Definition apply (o : oracle) (st : state) (e : entry) : state :=
   | EConfig | EOther => st
   end.
 
+(* Does applying [e] in [st] call IRCServer.ProcessMessage?  ProcessMessage is the only source of
+   output (sendMessages stores exactly its replies), so an entry that is not processed delivers
+   nothing to anybody. *)
+Definition processes (st : state) (e : entry) : bool :=
+  match e_type e with
+  | EIrc => negb (is_dup st e) && is_live st (e_session e)
+  | EDelete => is_live st (e_session e)
+  | ECreate | EMod | EConfig | EOther => false
+  end.
+
 Fixpoint replay (l : list (entry * oracle)) (st : state) : state :=
   match l with
   | [] => st
   | (e, o) :: r => replay r (apply o st e)
+  end.
+
+(* the entries that are processed (produce output) while a log is replayed, in order *)
+Fixpoint replay_proc (l : list (entry * oracle)) (st : state) : list entry :=
+  match l with
+  | [] => []
+  | (e, o) :: r => (if processes st e then [e] else []) ++ replay_proc r (apply o st e)
   end.
 
 (* ---- the POST handler ----------------------------------------------------------------------- *)
@@ -122,7 +146,10 @@ Definition post_handler (st : state) (sid : N) (body : string) : post_outcome :=
   end.
 
 (* ---- a node seen from outside: the log it has applied and its state ---------------------- *)
-Record sys := mkSys { s_log : list (entry * oracle); s_node : state }.
+Record sys := mkSys {
+  s_log : list (entry * oracle);
+  s_node : state;
+  s_proc : list entry }.   (* the entries processed so far (those that produced output), in order *)
 
 Definition with_id (e : entry) (i : N) : entry :=
   mkEntry (e_type e) i (e_session e) (e_cmid e) (e_data e) (e_rev e).
@@ -132,25 +159,35 @@ Variable restore : state -> state.    (* Unmarshal (Marshal st): FSM.Restore's e
 
 Inductive event :=
 | EvPost (sidtext : string) (hdr : option string) (body : string) (o : oracle)
-    (* POST .../<sidtext>/message reaching this node; [o] is what processing does if it gets applied *)
+    (* POST .../<sidtext>/message handled by this node in its current state; [o] is what
+       processing does if it gets applied *)
+| EvPostFrom (view : state) (sidtext : string) (hdr : option string) (body : string) (o : oracle)
+    (* the same request answered by a handler that sees the state [view] — ANY state, e.g. a
+       strict prefix replay of the log on a node that is restarting or was just elected (D14);
+       what it proposes is committed and applied here *)
 | EvApply (e : entry) (o : oracle)   (* an entry committed by any other means is applied *)
 | EvRestore.
 
+Definition commit (s : sys) (e : entry) (o : oracle) : sys :=
+  mkSys (s_log s ++ [(e, o)]) (apply o (s_node s) e)
+        (s_proc s ++ (if processes (s_node s) e then [e] else [])).
+
+Definition post_from (view : state) (s : sys) (sidtext : string) (hdr : option string) (body : string) (o : oracle) : sys :=
+  match session_check view hdr sidtext with
+  | inl id =>
+      match post_handler view id body with
+      | PPropose e => commit s (with_id e (next_index s)) o
+      | _ => s
+      end
+  | inr _ => s
+  end.
+
 Definition step (s : sys) (ev : event) : sys :=
   match ev with
-  | EvPost sidtext hdr body o =>
-      match session_check (s_node s) hdr sidtext with
-      | inl id =>
-          match post_handler (s_node s) id body with
-          | PPropose e =>
-              let e' := with_id e (next_index s) in
-              mkSys (s_log s ++ [(e', o)]) (apply o (s_node s) e')
-          | _ => s
-          end
-      | inr _ => s
-      end
-  | EvApply e o => mkSys (s_log s ++ [(e, o)]) (apply o (s_node s) e)
-  | EvRestore => mkSys (s_log s) (restore (s_node s))
+  | EvPost sidtext hdr body o => post_from (s_node s) s sidtext hdr body o
+  | EvPostFrom view sidtext hdr body o => post_from view s sidtext hdr body o
+  | EvApply e o => commit s e o
+  | EvRestore => mkSys (s_log s) (restore (s_node s)) (s_proc s)
   end.
 
 Fixpoint run (evs : list event) (s : sys) : sys :=
